@@ -13,6 +13,7 @@ S3  the circuit is built from the wires of the function body: outputs = panic re
 S9  array reads take the element stride from the array's own type, not from the type the result is used with
 S10 either check_or_constrain_* never re-types identifiers / elements / fields, or the lowering adjusts every number to its type's width
 S8  cross-reference: array outputs are decoded with the element count of the type (C09-L7)
+S11 cross-reference: resolved const definitions are visible to later ones (C12-K6)
 """
 from .. import mir
 from ..core import AnchorMissing, Finding, RuleResult
@@ -449,5 +450,17 @@ def rule_s10(ctx):
     return res
 
 
+def rule_s11(ctx):
+    """Cross-reference: const definitions reach the table their successors are resolved against (C12-K6), else an accepted program panics the compiler."""
+    from . import C12
+    res = RuleResult("S11", "every resolved const definition is visible to the later ones (cross-reference to C12-K6)")
+    k6 = C12.rule_k6(ctx)
+    for x in k6.findings:
+        res.bad(Finding("S11", x.fn, x.site, x.message, x.span))
+    if not k6.findings:
+        res.ok({"verdict": "C12-K6 holds"})
+    return res
+
+
 def run(ctx):
-    return ctx.run_rules([rule_s1, rule_s2, rule_s3, rule_s4, rule_s5, rule_s6, rule_s7, rule_s8, rule_s9, rule_s10])
+    return ctx.run_rules([rule_s1, rule_s2, rule_s3, rule_s4, rule_s5, rule_s6, rule_s7, rule_s8, rule_s9, rule_s10, rule_s11])
